@@ -72,9 +72,10 @@ void meshEdit(NifFile& nif, std::mt19937_64& r, std::string& what) {
 	}
 }
 
-void fileEvent(std::string& out, const std::string& caseJson, const char* how, NifFile& nif, const std::string& bytes, ContentIds& ids, const std::string& ops) {
+void fileEvent(std::string& out, const std::string& caseJson, const char* how, NifFile& nif, const std::string& bytes, ContentIds& ids, const std::string& ops,
+			   NifFile* locator = nullptr) {
 	out += "{\"e\":\"file\",\"case\":" + caseJson + ",\"how\":\"" + how + "\",\"ops\":" + ops + ",\"unk\":" + (nif.HasUnknown() ? "true" : "false")
-		   + ",\"f\":" + fileAbstract(bytes, &nif, ids) + "}\n";
+		   + ",\"f\":" + fileAbstract(bytes, &nif, ids, locator) + "}\n";
 }
 
 void runOne(NifFile& nif, uint64_t seed, size_t steps, const std::string& caseJson, std::string& out) {
@@ -221,6 +222,9 @@ int cmdEdits(int argc, char** argv) {
 				HeaderInfo h = parseHeader(bytes);
 				if (h.ok && h.hasSizes && !h.types.empty()) {
 					std::vector<std::vector<std::string>> sets = {{h.types[(seed + k) % h.types.size()]}, {h.types[(seed + k + 3) % h.types.size()]}, h.types};
+					NifFile known; // the same file under its real type names: tells where string indices sit inside opaque blocks
+					bool haveKnown = loadFromString(known, bytes) == 0;
+					NifFile* loc = haveKnown ? &known : nullptr;
 					for (auto& U : sets) {
 						std::string ub = bytes;
 						if (!relabelTypes(ub, U)) continue;
@@ -229,8 +233,8 @@ int cmdEdits(int argc, char** argv) {
 						ContentIds ids;
 						JArr ops;
 						ops.add("types unknown: " + std::to_string(U.size()) + " (" + U[0] + ")");
-						fileEvent(out, caseOf(k), "raw", un, saveToString(un, false, false), ids, ops.done());
-						fileEvent(out, caseOf(k), "default", un, saveToString(un, true, true), ids, ops.done());
+						fileEvent(out, caseOf(k), "raw", un, saveToString(un, false, false), ids, ops.done(), loc);
+						fileEvent(out, caseOf(k), "default", un, saveToString(un, true, true), ids, ops.done(), loc);
 						// copies of it: a fresh object, and objects that held another model before
 						{
 							NifFile viaCtor(un);
@@ -245,14 +249,14 @@ int cmdEdits(int argc, char** argv) {
 							for (int c = 0; c < 3; c++) {
 								JArr ops2;
 								ops2.add("types unknown: " + std::to_string(U.size()) + " (" + U[0] + "), " + hows[c]);
-								fileEvent(out, caseOf(k), "raw", *copies[c], saveToString(*copies[c], false, false), ids, ops2.done());
-								fileEvent(out, caseOf(k), "default", *copies[c], saveToString(*copies[c], true, true), ids, ops2.done());
+								fileEvent(out, caseOf(k), "raw", *copies[c], saveToString(*copies[c], false, false), ids, ops2.done(), loc);
+								fileEvent(out, caseOf(k), "default", *copies[c], saveToString(*copies[c], true, true), ids, ops2.done(), loc);
 							}
 						}
 						// a known block gets a longer name than any string of the table
 						if (auto root = un.GetRootNode()) {
 							root->name.get() = "a name that is longer than the strings of the unknown blocks, by a fair margin";
-							fileEvent(out, caseOf(k), "default", un, saveToString(un, true, true), ids, ops.done());
+							fileEvent(out, caseOf(k), "default", un, saveToString(un, true, true), ids, ops.done(), loc);
 						}
 					}
 				}
